@@ -16,8 +16,13 @@ let rs f r = match r with OK a -> f a | Err -> "ERR" | Panic -> "PANIC"
 let mut_chain (t : ty) (v : val0) : op list =
   let lit e x = SLit (e, x) in
   match t, v with
-  | TList (e, _), VSeq vs -> List.map (fun x -> OAppend (O, lit e x)) vs
-  | TBitlist _, VBits bs -> List.map (fun b -> OAppend (O, lit TBool (VBool b))) bs
+  | TList (e, n), VSeq vs ->
+    List.map (fun x -> OAppend (O, lit e x)) vs
+    @ (if vs <> [] && N.ltb (n_of_int (List.length vs)) n
+       then [OAppend (O, lit e (List.nth vs (List.length vs - 1))); OPop O] else [])
+  | TBitlist n, VBits bs ->
+    List.map (fun b -> OAppend (O, lit TBool (VBool b))) bs
+    @ (if N.ltb (n_of_int (List.length bs)) n then [OAppend (O, lit TBool (VBool true)); OPop O] else [])
   | TVector (e, _), VSeq vs -> List.mapi (fun i x -> OSet (O, n_of_int i, lit e x)) vs
   | TBitvector _, VBits bs -> List.mapi (fun i b -> OSet (O, n_of_int i, lit TBool (VBool b))) bs
   | TContainer fs, VCont vs ->
